@@ -593,6 +593,85 @@ fn honest_tab_call(rng: &mut Rng, n_cols: usize, height: u32, n_friendly: u64, q
     }
 }
 
+/// C05 on tall tables (heights 20..=63, row indices far above 2^32): queried rows and a few others
+/// are distinct, all other rows hold one default row (sparse tree, O(rows set × height)).
+pub fn c05_tall(ctx: &mut Ctx) {
+    let scenario = "core.c05.tall";
+    for p in ["tall.query-at-or-above-2^32", "tall.height-above-40"] {
+        ctx.stats.declare_probe(p);
+    }
+    let n_inst: u64 = if ctx.is_quick() { 150 } else { 6_000 };
+    for k in 0..n_inst {
+        if !ctx.mine(k) {
+            continue;
+        }
+        ctx.begin_run(scenario, k);
+        let mut rng = Rng::derive(ctx.seed, scenario, k);
+        let height = rng.range(20, 63) as u32;
+        let n_cols = match rng.below(4) {
+            0 => 1,
+            1 => 2,
+            _ => rng.range(1, 16) as usize,
+        };
+        let n_friendly = match rng.below(4) {
+            0 => 0,
+            1 => 1000,
+            _ => rng.range(0, height as u64 + 2),
+        };
+        let queries = draw_tall_queries(&mut rng, height);
+        if queries.iter().any(|q| *q >= 1 << 32) {
+            ctx.stats.probe("tall.query-at-or-above-2^32");
+        }
+        if height > 40 {
+            ctx.stats.probe("tall.height-above-40");
+        }
+        let rows: Vec<(u64, Vec<Felt>)> = queries.iter().map(|q| (*q, distinct_felts(&mut rng, n_cols))).collect();
+        let default_row = distinct_felts(&mut rng, n_cols);
+        let set: Vec<(u64, Felt)> = rows.iter().map(|(q, r)| (*q, models::row_leaf(r, height, n_friendly))).collect();
+        let tree = models::SparseTree::build(height, n_friendly, models::row_leaf(&default_row, height, n_friendly), &set);
+        let call = TabCall {
+            n_columns: Felt::from(n_cols as u64),
+            height: height as u64,
+            n_friendly,
+            root: tree.root(),
+            queries: queries.iter().map(|q| Felt::from(*q)).collect(),
+            values: rows.iter().flat_map(|(_, r)| r.iter().copied()).collect(),
+            auth: tree.auth(&queries),
+        };
+        ctx.stats.messages_delivered += (call.values.len() + call.auth.len() + 1) as u64;
+        ctx.stats.evaluations += 1;
+        let o = call.run();
+        ctx.stats.state(format!("tall|c{}|h{}|none|{}", n_cols.min(17), height / 8 * 8, o.class()));
+        if !o.is_accept() {
+            let rep = replay_envelope("C05", "core.c05", &ctx.variant, json!({"call": "table_decommit", "args": call.to_json(), "expect": "ok", "expected_outcome": o.describe()}));
+            ctx.violation(&format!("C05|honest-rejected|{}", o.class()), &format!("honest table decommitment rejected: columns {n_cols}, height {height}, friendly {n_friendly}, queries {queries:?}: {}", o.describe()), rep);
+            continue;
+        }
+        let mut faults = tab_faults(&call, n_cols, &mut rng);
+        let cap = if ctx.is_quick() { 48 } else { 160 };
+        if faults.len() > cap {
+            let stride = faults.len() as f64 / cap as f64;
+            let keep: std::collections::BTreeSet<usize> = (0..cap).map(|i| (i as f64 * stride) as usize).collect();
+            let mut i = 0;
+            faults.retain(|_| {
+                i += 1;
+                keep.contains(&(i - 1))
+            });
+        }
+        for (name, faulted) in faults {
+            let o = faulted.run();
+            ctx.stats.evaluations += 1;
+            let kind = fault_kind(&name);
+            ctx.stats.fired(&kind);
+            ctx.stats.state(format!("tall|h{}|{kind}|{}", height / 8 * 8, o.class()));
+            if o.is_accept() {
+                let rep = replay_envelope("C05", "core.c05", &ctx.variant, json!({"call": "table_decommit", "args": faulted.to_json(), "expect": "not_ok", "fault": name, "expected_outcome": o.describe()}));
+                ctx.violation(&format!("C05|fault-accepted|{kind}"), &format!("fault {name} accepted: columns {n_cols}, height {height}, friendly {n_friendly}, queries {queries:?}"), rep);
+            }
+        }
+    }
+}
+
 /// Shape shrinking for C05: fewest columns / smallest height / fewest queries on which the same
 /// fault kind is still accepted (kind = None: the honest table is still rejected).
 fn shrink_tab(seed: u64, n_cols: usize, height: u32, n_friendly: u64, kind: Option<&str>) -> Option<(TabCall, String, String)> {
